@@ -119,11 +119,32 @@ def run_check(modname, tier='quick', seed=0):
     nproc = min(16, max(1, len(jobs) + len(canary_jobs)))
     results, canaries = [], []
     if jobs or canary_jobs:
-        with mp.get_context('fork').Pool(nproc) as pool:
-            ar = pool.map_async(_verify_one, jobs) if jobs else None
-            cr = pool.map_async(_canary_one, canary_jobs) if canary_jobs else None
-            results = ar.get() if ar else []
-            canaries = cr.get() if cr else []
+        # every job has a wall-clock limit of its own: z3 can hang outside its timeouts (seen in Z3_solver_push on
+        # quantified string formulas); a job that does not come back is undecided, never a verdict
+        job_limit = int(os.environ.get('PYVC_JOB_LIMIT_S', '1500'))
+        pool = mp.get_context('fork').Pool(nproc)
+        try:
+            ars = [pool.apply_async(_verify_one, (j,)) for j in jobs]
+            crs = [pool.apply_async(_canary_one, (j,)) for j in canary_jobs]
+            t_start = time.time()
+            for j, a in zip(jobs, ars):
+                try:
+                    results.append(a.get(timeout=max(1, job_limit - (time.time() - t_start))))
+                except mp.TimeoutError:
+                    results.append(dict(function='%s[%s %d]' % (j[0], j[1], j[2]),
+                                        error='out-of-reach: the engine did not return within %d s' % job_limit,
+                                        obligation_list=[], obligations=0, discharged=0, failed=[], undecided=[], kind=j[1], idx=j[2],
+                                        wall_s=job_limit, solver_ms=0, paths=0))
+            for j, a in zip(canary_jobs, crs):
+                try:
+                    canaries.append(a.get(timeout=max(1, 2 * job_limit - (time.time() - t_start))))
+                except mp.TimeoutError:
+                    mod_ = importlib.import_module(j[0])
+                    c_ = mod_.CONTRACTS[j[1]]
+                    canaries.append(dict(function=c_.name, mutation='%s -> %s' % c_.canary[j[2]][:2], caught=False, by=['(no answer)']))
+        finally:
+            pool.terminate()
+            pool.join()
     # an obligation that timed out while the pool was busy is tried again alone with four times the budget: verdicts must
     # not depend on machine load (a real failure stays unknown/sat and is then reported)
     for k, r in enumerate(results):
